@@ -130,6 +130,9 @@ struct Extractor {
   std::string fnKey(const FunctionDecl *F) {
     std::string S;
     llvm::raw_string_ostream OS(S);
+    // all redeclarations (and every call site, whichever redeclaration it resolved to)
+    // share the first declaration's spelling of the parameter types
+    F = F->getCanonicalDecl();
     if (auto *M = dyn_cast<CXXMethodDecl>(F)) {
       if (M->getParent()->isLambda()) {
         OS << "lambda@" << locStr(M->getParent()->getLocation());
@@ -1003,6 +1006,7 @@ struct Extractor {
           Term["cond"] = ex(CE);
           Term["cond_text"] = textOf(CE);
           Term["cond_loc"] = locStr(CE->getBeginLoc());
+          Term["cond_off"] = (int64_t)offOf(CE->getBeginLoc());
           if (ECond && ECond != TermCond) {
             if (auto *EE = dyn_cast<Expr>(ECond)) {
               Term["econd"] = ex(EE);
